@@ -413,3 +413,75 @@ func VerifC17Twin() {
 	vAssume(err == nil && len(cf.Valid) == 1)
 	vAssert("twin", false)
 }
+
+func init() {
+	vRegister("C17Dir", VerifC17Dir)
+}
+
+var vTreeDirsZ = []string{"", "d/", "vendor/", "vendor/a/", "d/vendor/b/", "sub/", "sub/vendor/"}
+
+// VerifC17Dir: for a directory tree of regular files (no VCS metadata
+// directories), creating from the directory and creating from the list of its
+// files succeed or fail together and include the same files with the same
+// content; the directory check and the list check report the same valid and
+// invalid files.
+func VerifC17Dir() {
+	defer vFSCleanup()
+	root := vFSTempDir("tree")
+	var all []vF
+	if k := vChoice("gomod", 3); k > 0 {
+		all = append(all, vF{name: "go.mod", mode: 0644, size: int64(len(vGoMods[k])), data: []byte(vGoMods[k])})
+	}
+	if vChoice("nested", 2) == 1 {
+		all = append(all, vF{name: "sub/go.mod", mode: 0644, size: 9, data: []byte("module s\n")})
+	}
+	n := 1 + vChoice("nfiles", vParam("maxfiles", 2))
+	for i := 0; i < n; i++ {
+		rel := vTreeDirsZ[vChoice("dir", len(vTreeDirsZ))] + vSym("name", 1+vChoice("namelen", 2), `[a-zA-Z.]`) + vTreeExts[vChoice("ext", len(vTreeExts))]
+		for _, o := range all {
+			// a real tree: no duplicate paths, no file that is also a directory
+			vAssume(o.name != rel)
+			vAssume(!strings.HasPrefix(o.name, rel+"/") && !strings.HasPrefix(rel, o.name+"/"))
+		}
+		// names the file system itself would refuse or normalise are not part of a real tree
+		vAssume(!strings.HasSuffix(rel, "/.") && !strings.HasSuffix(rel, "/..") && rel != "." && rel != "..")
+		vAssume(!strings.Contains(rel, "/./") && !strings.Contains(rel, "/../"))
+		data := vContents[vChoice("content", len(vContents))]
+		all = append(all, vF{name: rel, mode: 0644, size: int64(len(data)), data: data})
+	}
+	var files []File
+	for _, f := range all {
+		files = append(files, f)
+		vFSPutFile(root+"/"+f.name, f.data)
+	}
+	// the two checks
+	lcf, _ := CheckFiles(files)
+	dcf, derr := CheckDir(root)
+	vReach("checked")
+	vAssert("checkdir-walks", derr == nil || len(dcf.Invalid) > 0 || dcf.SizeError != nil)
+	vAssert("same-valid-files", len(lcf.Valid) == len(dcf.Valid) && vPermEqZ(len(lcf.Valid), func(i, j int) bool { return root+"/"+lcf.Valid[i] == dcf.Valid[j] }))
+	vAssert("same-invalid-files", len(lcf.Invalid) == len(dcf.Invalid) && vPermEqZ(len(lcf.Invalid), func(i, j int) bool { return root+"/"+lcf.Invalid[i].Path == dcf.Invalid[j].Path }))
+	// the two ways of creating
+	var b1, b2 bytes.Buffer
+	e1 := Create(&b1, vMod, files)
+	e2 := CreateFromDir(&b2, vMod, root)
+	vAssert("create-and-createfromdir-agree", (e1 == nil) == (e2 == nil))
+	if e1 != nil || e2 != nil {
+		vReach("create-refused")
+		return
+	}
+	vReach("created-both")
+	z1, z2 := vFSTempDir("list.zip"), vFSTempDir("dir.zip")
+	vFSPutFile(z1, b1.Bytes())
+	vFSPutFile(z2, b2.Bytes())
+	o1, o2 := vFSTempDir("out1"), vFSTempDir("out2")
+	vAssert("list-archive-extracts", Unzip(o1, vMod, z1) == nil)
+	vAssert("dir-archive-extracts", Unzip(o2, vMod, z2) == nil)
+	r1, d1 := vFSFiles(o1)
+	r2, d2 := vFSFiles(o2)
+	vAssert("same-files-same-content", len(r1) == len(r2) && vPermEqZ(len(r1), func(i, j int) bool {
+		return vAnd(r1[i] == r2[j], string(d1[i]) == string(d2[j]))
+	}))
+}
+
+var vTreeExts = []string{".go", "", ".txt"}
